@@ -107,6 +107,14 @@ func typeNameOf(v ssa.Value) string {
 // conditions that select a phi's constant operands, i.e. lowered && / ||),
 // unary/binary operators, conversions and extracts.
 func condAtoms(v ssa.Value) map[string]bool {
+	return condAtomsDepth(v, 2)
+}
+
+// condAtomsDepth additionally looks into module functions with a single bool
+// result (to the given inlining depth): the atoms their returned value depends
+// on count as atoms of the call, so that extracting part of a condition into a
+// helper does not change what the condition is seen to depend on.
+func condAtomsDepth(v ssa.Value, inline int) map[string]bool {
 	out := map[string]bool{}
 	seen := map[ssa.Value]bool{}
 	var walk func(v ssa.Value, depth int)
@@ -179,7 +187,22 @@ func condAtoms(v ssa.Value) map[string]bool {
 			walk(w.Tuple, depth+1)
 		case *ssa.Call:
 			out[atomOf(w)] = true
-			// the result also depends on the arguments of pure accessors
+			if f := w.Call.StaticCallee(); f != nil && inline > 0 && inModule(f) && f.Blocks != nil &&
+				f.Signature.Results().Len() == 1 && isBool(f.Signature.Results().At(0).Type()) {
+				for _, b := range f.Blocks {
+					if rt, ok := b.Instrs[len(b.Instrs)-1].(*ssa.Return); ok {
+						for _, rv := range returnResults(rt) {
+							for a := range condAtomsDepth(rv, inline-1) {
+								out[a] = true
+							}
+						}
+						// early "return true/false" under a condition: the controlling conditions count too
+						for _, g := range guardsOfDepth(b, inline-1) {
+							out[g.Atom] = true
+						}
+					}
+				}
+			}
 		default:
 			out[atomOf(v)] = true
 		}
@@ -198,7 +221,9 @@ type guardAtom struct {
 // its dominator chain: for every dominator ending in an If one of whose
 // successors dominates b (or is b), the condition's atoms with the polarity of
 // that edge.
-func guardsOf(b *ssa.BasicBlock) []guardAtom {
+func guardsOf(b *ssa.BasicBlock) []guardAtom { return guardsOfDepth(b, 2) }
+
+func guardsOfDepth(b *ssa.BasicBlock, inline int) []guardAtom {
 	var out []guardAtom
 	cur := b
 	for {
@@ -217,7 +242,7 @@ func guardsOf(b *ssa.BasicBlock) []guardAtom {
 				fd = false
 			}
 			if td != fd {
-				for a := range condAtoms(ifi.Cond) {
+				for a := range condAtomsDepth(ifi.Cond, inline) {
 					out = append(out, guardAtom{Atom: a, Pol: td, Cond: ifi.Cond})
 				}
 			}
